@@ -5,9 +5,12 @@
 //! * `wire` — packet classifier, per-direction connection tracker, fault plan types.
 //! * `conn` — the scenario type, the application programs, the round loop (poll, egress, fate,
 //!   deliver) with the C06 oracle and the C16 monitors.
+//! * `fixture` — the same programs and fault plans end-to-end through turmoil-net's own
+//!   `fixture::ClientServer` / `fixture::lo` (plan installed as a `Rule` closure).
 //! * `gen`  — seeded generation, systematic fault placement, shrinking, known-defect predicates.
 
 pub mod conn;
 pub mod exec;
+pub mod fixture;
 pub mod gen;
 pub mod wire;
